@@ -17,8 +17,9 @@ def main(tier, replay=None):
         dict(scn="c16", name="C-scan-with-older-entries", opts=["scenario=C", "msgs=l1"] + common, bounds="%d,0,0,1" % P, total=P + 1, deadline=900 if q else 3600, qcap=0 if q else 8000000),
         dict(scn="c16", name="D-injector-vs-HUP-reread", opts=["scenario=D", "msgs=l1"] + common, bounds="%d,0,0,1" % (P + 1), total=P + 2, deadline=900 if q else 3600, qcap=0 if q else 8000000),
         # timeout rules on quiescent states of delivery histories (C03/C15 histories with the C16 monitors)
-        dict(scn="daemon", name="timeouts-deferred-remote", opts=["monitors=C16", "msgs=r1", "verdicts=KZ", "reorder=1"], bounds="0,0,0,%d" % (2 if q else 3), total=3),
+        dict(scn="daemon", name="timeouts-deferred-remote", opts=["monitors=C16", "msgs=r1", "verdicts=KZ", "reorder=1", "halfsleep=1"], bounds="0,0,0,%d" % (2 if q else 3), total=3),
         dict(scn="daemon", name="timeouts-deferred-mixed", opts=["monitors=C16", "msgs=l1r1", "verdicts=KZ", "reorder=1"], bounds="0,0,0,%d" % (2 if q else 3), total=3),
+        dict(scn="daemon", name="bounce-wakes-the-daemon", opts=["monitors=C16", "msgs=l1r1", "verdicts=KD", "reorder=1", "signals=0"], bounds="0,0,0,2", total=2),
         dict(scn="daemon", name="remote-concurrency-zero", opts=["monitors=C16", "msgs=l1r1", "verdicts=KZ", "reorder=1", "concr=0", "maxticks=6"], bounds="0,0,0,2", total=2),
         dict(scn="daemon", name="local-concurrency-zero", opts=["monitors=C16", "msgs=l1r1", "verdicts=KZ", "reorder=1", "concl=0", "maxticks=6"], bounds="0,0,0,2", total=2),
         dict(scn="daemon", name="term-with-held-delivery-and-injection", opts=["monitors=C16", "msgs=l1+r1b", "inject=event", "verdicts=KZ", "reorder=1"], bounds="0,0,0,%d" % (2 if q else 3), total=3),
@@ -29,7 +30,7 @@ def main(tier, replay=None):
                 "POSIX readdir behaviours), real binaries, clock frozen so the 25-minute rescan cannot hide a lost trigger; oracle at every "
                 "quiescent point: no committed todo entry is left unnoticed; fairness: an identical block of calls repeated around select() "
                 "yields, and is a busy loop when nobody else can run; timeouts-*: histories with deferrals/TERM where every blocking select "
-                "must wake no later than the earliest due time + 1 s; *-concurrency-zero: the same histories with concurrencyremote / concurrencylocal set to 0 "
+                "must wake no later than the earliest due time + 1 s (a HUP arrives in the middle of a timed sleep: the rest of the sleep is computed from the current time); bounce-wakes-the-daemon: a bounce queued by the daemon itself is noticed at once; *-concurrency-zero: the same histories with concurrencyremote / concurrencylocal set to 0 "
                 "(a channel on hold with mail due for it): the daemon must block, not spin")
     res.assumptions = ["virtual kernel FIFO/select semantics as measured on Linux (bin/conformance)", "calls of the three programs that touch neither todo/ nor lock/trigger commute with the other side and are not scheduling points"]
     res.require_nonzero("evaluations", "race_trigger_pulled_during_scan", "race_link_during_scan", "race_trigger_open_ENXIO_during_rearm", "readdir_sees_late_entry", "ticks", "reports_Z")
